@@ -66,6 +66,7 @@ type State struct {
 	freshRegions map[*Region]bool
 	ifaceRefined map[int]IfaceV
 	ifaceDenied  map[int]bool
+	quantDepth int
 	wframe   *writeFrame // write-frame of the function under verification (nil: none declared)
 	persist  []*Term // facts that survive a cut: entry assumptions and earlier cut assertions
 	steps    int
@@ -201,6 +202,7 @@ type Engine struct {
 	sliceBindActive bool
 	ctWriteCache  map[*ssa.Function]map[int]bool
 	initMem       map[*Region]Cell // memory allocated by package initialisers
+	aliasConds    []*Term
 	ctWriteBusy   map[*ssa.Function]bool
 	groundDone    bool
 	groundFacts   []*Term
@@ -296,8 +298,64 @@ func (e execError) Error() string { return e.msg }
 func fail(format string, a ...interface{}) { panic(execError{fmt.Sprintf(format, a...)}) }
 
 // navigate returns the cell at path inside c, and a function rebuilding c with a replaced sub-cell.
+// flat navigation state: inside a flattened array of aggregates, at leaf offset base, type t
+type flatView struct {
+	sa   *SymArrCell
+	base *Term
+}
+
+// flatStep advances a flat view by one path element.
+func flatStep(base *Term, t types.Type, pe PathEl) (*Term, types.Type) {
+	switch u := t.Underlying().(type) {
+	case *types.Struct:
+		off := 0
+		for i := 0; i < pe.Field; i++ {
+			off += leafCount(u.Field(i).Type())
+		}
+		return Add(base, ConstI(int64(off))), u.Field(pe.Field).Type()
+	case *types.Array:
+		return Add(base, MulC(pe.Idx, bi(int64(leafCount(u.Elem()))))), u.Elem()
+	}
+	fail("flat navigation: cannot navigate %s", t)
+	return nil, nil
+}
+
+func (en *Engine) flatLeaf(st *State, sa *SymArrCell, idx *Term, lt types.Type) *Term {
+	s := Select(sa.Arr, idx)
+	if s.op == OSelect && !st.typed[s.id] && st.quantDepth == 0 {
+		st.typed[s.id] = true
+		if lo, hi, ok := typeRange(lt); ok {
+			st.assume(Le(Const(lo), s))
+			st.assume(Le(s, Const(hi)))
+		}
+	}
+	if isBool(lt) && s.sort == SInt {
+		return Not(Eq(s, ConstI(0)))
+	}
+	return s
+}
+
+func (en *Engine) flatMaterialize(st *State, fv *flatView, t types.Type) Cell {
+	n := 0
+	return buildCell(t, &n, func(i int, lt types.Type) *Term {
+		return en.flatLeaf(st, fv.sa, Add(fv.base, ConstI(int64(i))), lt)
+	})
+}
+
 func (en *Engine) loadPath(st *State, c Cell, path []PathEl, t types.Type) (Cell, types.Type) {
+	var fv *flatView
 	for _, pe := range path {
+		if fv != nil {
+			fv.base, t = flatStep(fv.base, t, pe)
+			continue
+		}
+		if u, ok := t.Underlying().(*types.Array); ok {
+			if sa, ok := c.(*SymArrCell); ok && isAggType(sa.Elem) {
+				fv = &flatView{sa: sa, base: MulC(pe.Idx, bi(int64(leafCount(u.Elem()))))}
+				t = u.Elem()
+				continue
+			}
+		}
 		switch u := t.Underlying().(type) {
 		case *types.Struct:
 			sc, ok := c.(*StructCell)
@@ -316,15 +374,30 @@ func (en *Engine) loadPath(st *State, c Cell, path []PathEl, t types.Type) (Cell
 				t = sa.Elem
 				continue
 			}
+			if ls, ok := c.(*LazySlices); ok {
+				c = en.lazyElem(st, ls, pe.Idx)
+				t = types.NewSlice(ls.Elem)
+				continue
+			}
 			fail("loadPath: cannot navigate %s", t)
 		}
+	}
+	if fv != nil {
+		return en.flatMaterialize(st, fv, t), t
 	}
 	return c, t
 }
 
 func (en *Engine) symSelect(st *State, sa *SymArrCell, idx *Term) Cell {
 	s := Select(sa.Arr, idx)
-	if s.op == OSelect && !st.typed[s.id] {
+	if isBool(sa.Elem) {
+		// booleans are stored as 0/1 in symbolic arrays
+		if s.sort == SBool {
+			return s
+		}
+		return Not(Eq(s, ConstI(0)))
+	}
+	if s.op == OSelect && !st.typed[s.id] && st.quantDepth == 0 {
 		st.typed[s.id] = true
 		if lo, hi, ok := typeRange(sa.Elem); ok {
 			st.assume(Le(Const(lo), s))
@@ -332,6 +405,13 @@ func (en *Engine) symSelect(st *State, sa *SymArrCell, idx *Term) Cell {
 		}
 	}
 	return s
+}
+
+func boolToInt(v *Term) *Term {
+	if v.sort == SBool {
+		return Ite(v, ConstI(1), ConstI(0))
+	}
+	return v
 }
 
 func (en *Engine) indexCell(st *State, c Cell, idx *Term, elem types.Type) Cell {
@@ -357,6 +437,9 @@ func (en *Engine) indexCell(st *State, c Cell, idx *Term, elem types.Type) Cell 
 		}
 		fail("symbolic index into large concrete array")
 	case *SymArrCell:
+		if isAggType(a.Elem) {
+			return en.flatMaterialize(st, &flatView{sa: a, base: MulC(idx, bi(int64(leafCount(a.Elem))))}, a.Elem)
+		}
 		return en.symSelect(st, a, idx)
 	}
 	fail("indexCell: not an array cell: %T", c)
@@ -424,10 +507,30 @@ func (en *Engine) storePath(st *State, c Cell, path []PathEl, t types.Type, v Ce
 			}
 			return &ArrCell{es}
 		case *SymArrCell:
+			if isAggType(a.Elem) {
+				base := MulC(pe.Idx, bi(int64(leafCount(u.Elem()))))
+				et := u.Elem()
+				for _, q := range path[1:] {
+					base, et = flatStep(base, et, q)
+				}
+				var leaves []*Term
+				flattenCell(v, &leaves)
+				if len(leaves) != leafCount(et) {
+					fail("flat store: %d leaves for %s", len(leaves), et)
+				}
+				arr := a.Arr
+				for i, l := range leaves {
+					if l.sort == SBool {
+						l = Ite(l, ConstI(1), ConstI(0))
+					}
+					arr = Store(arr, Add(base, ConstI(int64(i))), l)
+				}
+				return &SymArrCell{Arr: arr, N: a.N, Elem: a.Elem}
+			}
 			if len(path) != 1 {
 				fail("store into element of symbolic array of aggregates")
 			}
-			return &SymArrCell{Arr: Store(a.Arr, pe.Idx, v.(*Term)), N: a.N, Elem: a.Elem}
+			return &SymArrCell{Arr: Store(a.Arr, pe.Idx, boolToInt(v.(*Term))), N: a.N, Elem: a.Elem}
 		}
 	default:
 		if sa, ok := c.(*SymArrCell); ok {
@@ -438,7 +541,7 @@ func (en *Engine) storePath(st *State, c Cell, path []PathEl, t types.Type, v Ce
 			if !ok {
 				fail("store of non-scalar into symbolic array")
 			}
-			return &SymArrCell{Arr: Store(sa.Arr, pe.Idx, tv), N: sa.N, Elem: sa.Elem}
+			return &SymArrCell{Arr: Store(sa.Arr, pe.Idx, boolToInt(tv)), N: sa.N, Elem: sa.Elem}
 		}
 	}
 	fail("storePath: cannot navigate %s with %T", t, c)
@@ -503,6 +606,12 @@ func (en *Engine) globalCell(st *State, r *Region) Cell {
 		return c
 	}
 	if en.initMode {
+		return zeroCell(r.typ)
+	}
+	if r.global != nil && r.global.Pkg != nil && modulePkg(r.global.Pkg.Pkg.Path()) {
+		// a variable of the module that no initialiser assigns holds its zero value; that no other
+		// function writes it is the global-immutable obligation of C15
+		en.externCalls["package variable "+r.name+" holds its zero value (never assigned by an initialiser; immutability is C15's global-immutable obligation)"] = true
 		return zeroCell(r.typ)
 	}
 	// unknown global contents (variables of other packages): symbolic; interface-valued ones
